@@ -52,3 +52,101 @@ def replay(run, scratch, path, cfg):
                 print("oracle:", f[:3])
                 bad = True
     return 1 if bad else 0
+
+
+# ---------------------------------------------------------------- C12
+def c12_expected(case):
+    """the property statement, computed independently with pandas: list of expected booleans per call,
+    and the set of call positions where only known finding K11 (edge dates honour only their flag) applies"""
+    import pandas as pd
+    kind, f, eop, l = case["algo"][1], bool(case["algo"][2]), bool(case["algo"][3]), bool(case["algo"][4])
+    idx = pd.DatetimeIndex(pd.to_datetime(case["dates"], unit="s"))
+
+    def pid(t):
+        if kind == "daily":
+            return t.toordinal()
+        if kind == "weekly":
+            return tuple(t.isocalendar()[:2])
+        if kind == "monthly":
+            return (t.year, t.month)
+        if kind == "quarterly":
+            return (t.year, t.quarter)
+        return t.year
+    n = len(idx)
+    exp, k11 = [], set()
+    for pos, r in enumerate(case["calls"]):
+        if r == 0:
+            exp.append(False)
+            continue
+        other = r + 1 if eop else r - 1
+        changed = 1 <= other <= n - 1 and pid(idx[r]) != pid(idx[other])
+        if r == 1:
+            want = f or (eop and changed)
+            if want and not f:
+                k11.add(pos)
+        elif r == n - 1:
+            want = l or ((not eop) and changed)
+            if want and not l:
+                k11.add(pos)
+        else:
+            want = changed
+        exp.append(want)
+    return exp, k11
+
+
+def run_c12(run, scratch, seed, tier):
+    import random
+    import sched_suite as S
+    rng = random.Random(seed)
+    cal = S.run_calendar(scratch, tier, rng)
+    run.add_suite("calendar_vs_pandas", {"evaluations": cal["days"] + cal["offsets"], "distinct_nontrivial": cal["days"],
+                                         "traces_validated_against_impl": cal["days"] + cal["offsets"] - cal["n_mismatch"],
+                                         "exhaustive": tier == "thorough",
+                                         "rule": "year/month/day/quarter/ISO week/weekday/ISO year of every sampled day of the "
+                                                 "pd.Timestamp range (thorough: every day) and now - DateOffset(months, days)",
+                                         "samples": [{"days": cal["days"], "offsets": cal["offsets"]}]})
+    if cal["n_mismatch"]:
+        run.violation({"suite": "calendar_vs_pandas", "mismatches": cal["mismatches"],
+                       "broken": "correspondence Cal.v vs pandas"},
+                      "calendar model and pandas disagree: %s" % json.dumps(cal["mismatches"][:1]))
+    pc = S.period_cases(3 if tier == "quick" else 4, rng, limit=(500 if tier == "quick" else 6000))
+    cc = S.counter_cases(rng, 1500 if tier == "quick" else 20000)
+    res = S.run_sched(scratch, pc + cc)
+    bad = [(c, i, m) for c, i, m in res if i != m]
+    nontrivial = len({json.dumps([c["algo"], c["dates"], c["calls"]]) for c, i, m in res if "T" in (i or []) and "F" in (i or [])})
+    oracle_fail, k11_seen = [], 0
+    for c, i, m in res[:len(pc)]:
+        exp, k11 = c12_expected(c)
+        got = [x == "T" for x in i]
+        for pos, (a, b) in enumerate(zip(got, exp)):
+            if a != b:
+                if pos in k11 and not a:
+                    k11_seen += 1
+                else:
+                    oracle_fail.append((c, pos, a, b))
+    if k11_seen:
+        run.known_seen.add("c12_edge_date_flag_only")
+    st = {"evaluations": len(res), "distinct_nontrivial": nontrivial, "traces_validated_against_impl": len(res) - len(bad),
+          "disagreements": len(bad), "oracle_failures": len(oracle_fail), "k11_occurrences": k11_seen,
+          "rule": "RunDaily..RunYearly: all 8 flag triples x all subsets (size <= 3/4, sampled to a cap) of a 27-stamp "
+                  "boundary pool (New Year in ISO week 1/52/53, leap day, quarter ends, intraday stamps, same "
+                  "day-of-month in different months), called on every row; counting schedulers: random call sequences "
+                  "with repeated dates; non-trivial = distinct case whose results contain both True and False",
+          "samples": [pc[0], cc[0]]}
+    run.add_suite("scheduler_enumeration", st)
+    run.cov["rule"] = st["rule"]
+    if bad:
+        c, i, m = bad[0]
+        exp = None
+        if c["algo"][0] == "runperiod":
+            exp, _ = c12_expected(c)
+        run.violation({"suite": "scheduler_enumeration", "case": c, "impl": i, "model": m, "expected_by_property": exp,
+                       "n_disagreeing": len(bad), "broken": "correspondence of Algos.run_period/run_algo with bt/algos.py"},
+                      "scheduler %s on dates %s: implementation %s, model %s" % (c["algo"], c["dates"], i, m))
+    for c, pos, a, b in oracle_fail[:2]:
+        run.violation({"suite": "scheduler_enumeration", "case": c, "call": pos, "impl": a, "property": b},
+                      "scheduler %s returns %s on call %d where the property requires %s (dates %s)"
+                      % (c["algo"], a, pos, b, c["dates"]))
+
+
+PROPS["C12"] = {"props_file": "C12.v", "run": run_c12}
